@@ -20,17 +20,27 @@ place_demo() {
     cp $DEST/demo.rs $WT/$tgt; echo $tgt
   fi
 }
-tgt=$(place_demo)
-crate=$(echo $tgt | cut -d/ -f2); tname=$(basename $tgt .rs)
+if grep -q "crates/parol-ls/src/seeded_demo.rs" $DEST/demo.rs 2>/dev/null; then
+  # unit-test module of the binary crate parol-ls
+  LSMOD=1; tgt=crates/parol-ls/src/seeded_demo.rs
+  cp $DEST/demo.rs $WT/$tgt
+  sed -i 's/^mod utils;$/mod utils;\n#[cfg(test)]\nmod seeded_demo;/' $WT/crates/parol-ls/src/main.rs
+  run_demo() { cargo test --offline -j8 -p parol-ls seeded_demo -- --test-threads 1; }
+else
+  LSMOD=0; tgt=$(place_demo)
+  crate=$(echo $tgt | cut -d/ -f2); tname=$(basename $tgt .rs)
+  run_demo() { cargo test --offline -j8 -p $crate --test $tname; }
+fi
 echo "demo at $tgt" >> $LOG
 echo "== demo WITHOUT patch" >> $LOG
-cargo test --offline -j8 -p $crate --test $tname >> $LOG.demo0 2>&1; r0=$?
+run_demo >> $LOG.demo0 2>&1; r0=$?
 tail -5 $LOG.demo0 >> $LOG; echo "exit=$r0" >> $LOG
 git apply $DEST/patch.diff
 echo "== demo WITH patch" >> $LOG
-cargo test --offline -j8 -p $crate --test $tname >> $LOG.demo1 2>&1; r1=$?
+run_demo >> $LOG.demo1 2>&1; r1=$?
 grep -E "^test |test result" $LOG.demo1 | tail -12 >> $LOG; echo "exit=$r1" >> $LOG
 rm -f $WT/$tgt
+[ "$LSMOD" = 1 ] && git -C $WT checkout -q -- crates/parol-ls/src/main.rs
 echo "== test suite WITH patch" >> $LOG
 cargo test --workspace --no-fail-fast --offline -j8 -- --test-threads 8 > $LOG.suite 2>&1; rs=$?
 grep -E "^test result" $LOG.suite | awk '{p+=$4; f+=$6} END {print "passed="p" failed="f}' >> $LOG; echo "exit=$rs" >> $LOG
